@@ -81,6 +81,8 @@ class EvalContext(metaclass=NamespaceableMeta):
         self._removed_nodes = {}
         self._eval_cache = {}
         self._eval_cache_id = {}
+        self._unsafe_seen = 0
+        self._tainted = set()
         self._eval_symbols = copy.copy(EvalContext._default_eval_symbols)
         if eval_symbols:
             self._eval_symbols.update(eval_symbols)
@@ -118,6 +120,8 @@ class EvalContext(metaclass=NamespaceableMeta):
     def get_node(self, *path, **kwargs):
         path = NodePath.get_list_path(*path)
         if str(path) in self._eval_cache:
+            if self._require_all_safe and ('path', str(path)) in self._tainted:
+                raise errors.UnsafeError(f'Note: the current context requires all evaluated nodes to be safe but the value cached for {str(path)!r} was computed from at least one !unsafe node', self.cfg.ayns.get_node(path, incomplete=None), str(path))
             return self._eval_cache[str(path)]
         return self.cfg.ayns.get_node(path, **kwargs)
 
@@ -133,8 +137,15 @@ class EvalContext(metaclass=NamespaceableMeta):
             if not cfgobj.ayns.safe:
                 raise errors.UnsafeError(f'Note: the current context requires all evaluated nodes to be safe - see chained exceptions for more information', cfgobj, str(prefix))
 
+        if not cfgobj.ayns.safe:
+            self._unsafe_seen += 1
+
         if id(cfgobj) in self._eval_cache_id:
+            if self._require_all_safe and ('id', id(cfgobj)) in self._tainted:
+                raise errors.UnsafeError(f'Note: the current context requires all evaluated nodes to be safe but the cached value of this node was computed from at least one !unsafe node', cfgobj, str(prefix))
             return self._eval_cache_id[id(cfgobj)]
+
+        unsafe_seen = self._unsafe_seen
 
         evaluated_parent = None
         if prefix:
@@ -151,6 +162,9 @@ class EvalContext(metaclass=NamespaceableMeta):
 
         self._eval_cache[str(prefix)] = evaluated_cfgobj
         self._eval_cache_id[utils.persistent_id(cfgobj)] = evaluated_cfgobj
+        if self._unsafe_seen != unsafe_seen or not cfgobj.ayns.safe:
+            self._tainted.add(('path', str(prefix)))
+            self._tainted.add(('id', id(cfgobj)))
         self._eval_stack.pop()
         return evaluated_cfgobj
 
